@@ -17,7 +17,7 @@ rm -rf "$wt"; git -C /repo worktree prune; git -C /repo worktree add -q --detach
 cp "$dst/seed_demo_test.go" "$wt/$pkgdir/seed_demo_test.go"
 export GOFLAGS=-mod=mod GOPROXY=off
 modroot="$wt"; [ -f "$wt/$pkgdir/go.mod" ] && modroot="$wt/$pkgdir"
-run() { (cd "$wt/$pkgdir" && go test -count=3 -vet=off -run 'SeedDemo' . 2>&1 | tail -3); }
+run() { (cd "$wt/$pkgdir" && go test -count=3 -vet=off -run 'TestSeed' . 2>&1 | tail -3); }
 without=$(run); wcode=$(echo "$without" | grep -c '^ok')
 git -C "$wt" apply "$PWD/$dst/patch.diff" || echo "PATCH DOES NOT APPLY"
 build=$( (cd "$wt" && go build ./... 2>&1 | tail -2) )
